@@ -117,10 +117,10 @@ extend("C20", "arrays above 2^20 samples (mega), one long axis (long_axis: 65537
 # ---- round j
 _FOREIGN = ("objects built in ANOTHER interpreter process (different string-hash salt; vlib/foreign.py) and loaded here from their pickle, "
             "next to constructed / copy / deepcopy / pickle duplicates")
-extend("C01", "kernels of 2^24 .. 2^27.3 elements in both orientations (giant; up to the 12 GB address-space cap).")
+extend("C01", "kernels of 2^24 .. 2^26.8 elements in both orientations (giant; up to the 12 GB address-space cap).")
 extend("C02", "pupils as " + _FOREIGN + ".")
 extend("C03", "planes that were used, then rescaled / resampled / copied / pickled / given new arrays, then used again (used_then_derived); pupils as " + _FOREIGN + ".")
-extend("C05", "kernels of 2^24 .. 2^27.3 elements in both orientations (giant).")
+extend("C05", "kernels of 2^24 .. 2^26.8 elements in both orientations (giant).")
 extend("C07", "neutral starting values held in arrays (all-zero / constant OPD, all-one amplitude), whole-array refills in place and updates through the caller's own arrays in plane_history.")
 extend("C08", "planes, ptype objects and whole start wavefronts as " + _FOREIGN + ".")
 extend("C09", "pupils as " + _FOREIGN + ".")
@@ -179,3 +179,12 @@ extend("C09", "second legs: image wavefronts returned by propagate_fft (possibly
 extend("C10", "spectra edited in place between uses (value / wavelength arrays, through the attribute or the caller's array), own and foreign units (spectrum_paths).")
 extend("C13", "numpy vectors on the left of constructed and derived spectra (reflected multiplication).")
 extend("C16", "one efficiency Spectrum re-used across frames with in-place edits of its arrays in between (qe_reuse).")
+
+# ---- round p
+extend("C01", "outputs one or two samples longer than power-of-two-sized inputs (long).")
+extend("C05", "periods one or two samples longer than 2048- / 4096- / 3000-sample pupils (long).")
+extend("C11", "radial orders 40..70 (Noll 821..2556) at small radii.")
+extend("C12", "60..160 modes in unusual orders: slice k of zernike_basis is mode modes[k] (many_modes).")
+extend("C17", "each factor of the scan also right after a sibling plane (one row / column fewer) was rescaled by the same factor.")
+extend("C18", "1100-word array seeds differing in one middle word.")
+extend("C19", "the 8-bit class drawn with a fixed share, incl. products just beyond 256.")
